@@ -209,11 +209,8 @@ def update_case(ctx, drv, root, cmd, p, o, label, pl_top='Manifest', scen_extra=
     judge(ctx, root, scen, end, label)
     ctx.case(json.dumps(scen, sort_keys=True, default=str)[:100000], True,
              {'label': label, 'argv': scen['argv'], 'end': canon_end(end)})
-    from harness import findings
-    if model is not None and findings.PREDICATES['f8_manifest_rename_collision'](scen):
-        # the rename of a (de)compressed Manifest onto another loaded Manifest of the directory (recorded finding F8, owned by
-        # C03/C13): what happens after the collision is not modelled faithfully; the oracle above still applies
-        ctx.count('f8-territory(correspondence skipped)')
+    if False:
+        pass
     elif model is not None and 'abstain' not in model:
         if canon_end(end) != model and not ('oserror' in end and 'oserror' in model):
             ctx.disagree('update_main', scen, canon_end(end), {'model': model, 'detail': {k: v for k, v in rep['model'].items() if k in ('err', 'path')}})
